@@ -5,6 +5,7 @@ import random
 
 from .common import *
 from .core import Ctx, Infra, casehash, log
+from .p_c01 import slice_bulk
 
 
 def gen(ctx, cfg, label):
@@ -19,6 +20,10 @@ def gen(ctx, cfg, label):
     n = ctx.unquote(ctx.spec("cases.ndjson"), cases)
     ctx.unquote(ctx.spec("vals.ndjson"), vals)
     log("[gen] %d schemas" % n)
+    if ctx.tier == "thorough":
+        # the thorough tier drives a seeded half of the bulk (Gen_C01!Bulk: wrapped schemas with >= 2 innermost keywords; TLC
+        # marks them) and everything else; which half is a function of the seed
+        slice_bulk(ctx, cases)
     return cases, vals
 
 
@@ -43,7 +48,7 @@ def c12(ctx: Ctx):
             cases2, vals = gen(ctx, "Gen_C12_quick2.cfg", "F generate wrapped schemas (BFS)")
             with open(cases, "a") as f:
                 f.write(open(cases + ".1").read())
-        ctx.exhaustive = True
+        ctx.exhaustive = not getattr(ctx, "sliced", False)
     # the configurations part of the quantifier: every sequence of mode / customiser / reading / extra options (spec/Gen_C19O.tla)
     ctx.tlc("Gen_C19O", "Gen_C19O.cfg", label="F generate option sets (mode x reading x extra x customiser position)")
     optsp = os.path.join(ctx.scratch, "opts.ndjson")
